@@ -251,6 +251,31 @@ def rule_add(ctx):
                 'dimension has grown; add() has no equivalent check before its first mutation, so '
                 'a reopen shows a half-written record'),
                line=(pre.line if pre is not None else rn.lineno))
+        if pre is not None:
+            # the pre-validation must not walk state that is only populated later in this very call
+            from ..resolve import self_attr_stores
+            reads = set()
+            for a in ancestors(pre.stmt):
+                if isinstance(a, ast.For):
+                    reads |= {x.attr for x in ast.walk(a.iter) if isinstance(x, ast.Attribute) and norm(x.value) == 'self'}
+            for t, pol, _ in guards_of(pre.stmt):
+                reads |= {x.attr for x in ast.walk(t) if isinstance(x, ast.Attribute) and norm(x.value) == 'self'}
+            later = {}
+            for c in calls_in(add.node):
+                if c.lineno > pre.line:
+                    callee = resolve_call(prog, add, c)
+                    if callee is not None and callee.cls is add.cls:
+                        for fn2 in closure(prog, [callee]):
+                            if fn2.cls is add.cls:
+                                for attr, st, how in self_attr_stores(fn2):
+                                    later.setdefault(attr, fn2.qualname)
+            stale = sorted(reads & set(later))
+            ctx.ob('C10-R1b', add, f'pre-validation reads {sorted(reads) or "only the argument"}', not stale,
+                   'the check depends only on the trajectory being added (and state that exists before the call)'
+                   if not stale else
+                   (f'the pre-validation walks self.{stale[0]}, which is only populated by {later[stale[0]]} later in '
+                    'the same call: for the first addition to a new store the check is empty, the record is '
+                    'half-written and the files keep it'), line=pre.line)
     else:
         ctx.note('C10-R1b: no required-value rejection left in the write path')
 
